@@ -187,6 +187,112 @@ def check_wiring(w, rep):
     rep.floor("C12.wiring", 12)
 
 
+def _code_leaves(p, path=()):
+    a = p.single_atom()
+    if a is not None and a.kind == "ite":
+        yield from _code_leaves(a.key[1], path + ((a.key[0], True),))
+        yield from _code_leaves(a.key[2], path + ((a.key[0], False),))
+    else:
+        yield path, p
+
+
+INJECTIVE = ("asin", "acos", "atan", "sqrt", "exp", "log", "sinh", "asinh", "tanh")
+
+
+def _peel_scaling(d1, d2, la, depth=4):
+    """d = (+-) h(u) + const with h injective: degree n such that u(lam B) = lam^n u(B), or None when undecided."""
+    if depth == 0:
+        return None
+    def inner(d):
+        is_const = lambda m: all(x.kind == "sym" and x.key[0] == "pi" for x, _ in m)
+        nc = [(m, c) for m, c in d.t.items() if not is_const(m)]
+        if len(nc) != 1 or len(nc[0][0]) != 1 or nc[0][0][0][1] != 1:
+            return None
+        a = nc[0][0][0][0]
+        if a.kind in INJECTIVE and isinstance(a.key[0], Poly):
+            return a.kind, a.key[0], nc[0][1], Poly({m: c for m, c in d.t.items() if is_const(m)})
+        return None
+    i1, i2 = inner(d1), inner(d2)
+    if i1 is None or i2 is None or i1[0] != i2[0] or i1[2] != i2[2] or i1[3] != i2[3]:
+        return None
+    u1, u2 = i1[1], i2[1]
+    for n in (0, 1, 2, 3, 4):
+        if decide(u2, u1 * Poly({((la, n),): 1}) if n else u1) == EQUAL:
+            return n
+    r = _peel_scaling(u1, u2, la, depth - 1)
+    return r
+
+
+def check_gates(w, rep):
+    """Rejection tests that can starve the filter for a whole run (necessary conditions of convergence):
+    (1) the magnetometer correction's rejection tests must not depend on the heading uncertainty W[2, .]: the heading is
+        observed by this correction only (H = e3^T), it starts large, and a test on it can never be passed again;
+    (2) initialize(): the error code is invariant under a positive scaling of the measured field B (its tests concern
+        directions; the simulator's field strength is a free parameter, 0.1 by default)."""
+    mod = w.mod(MRP)
+    R = "C12.gates"
+    for need in ("correct_mag", "initialize"):
+        if need not in mod:
+            raise AnchorMissing("%s.%s" % (MRP, need))
+    ok, f = guarded(w, rep, "C12.API", "mrp.correct_mag() for its gates", lambda: w.callf(mod["correct_mag"]))
+    if ok and isinstance(f, cm.FunctionVal) and "W" in (f.in_names or []) and "error_code" in (f.out_names or []):
+        I = dict(zip(f.in_names, f.ins))
+        O = dict(zip(f.out_names, f.outs))
+        Wm = I["W"]
+        row2 = {p_.single_atom() for p_ in [Wm.cells[2][j] for j in range(Wm.c)] + [Wm.cells[i][2] for i in range(Wm.r)] if p_.single_atom() is not None}
+        used = set()
+        for c in ite_conditions(O["error_code"]):
+            used |= {a for a in all_atoms(c) if a in row2}
+        rep.check(R, "correct_mag: rejection tests do not depend on the heading uncertainty W[2,.]", not used,
+                  "a rejection test of the magnetometer correction depends on %s: the heading uncertainty is reduced by this correction only, so while it is large every magnetometer sample is rejected and it stays large (the heading never converges)"
+                  % sorted(repr(a) for a in used), where=w.where(MRP, "correct_mag"))
+    ok, f = guarded(w, rep, "C12.API", "mrp.initialize() for its gates", lambda: w.callf(mod["initialize"]))
+    if ok and isinstance(f, cm.FunctionVal) and f.in_names == ["g_b", "B_b", "decl"] and "error_code" in (f.out_names or []):
+        g, B, d, lam = w.sym("g_b", 3), w.sym("B_b", 3), w.sym("decl"), w.sym("lam")
+        la = lam.s().single_atom()
+        k = f.out_names.index("error_code")
+        with with_maxdeg(30):
+            c1 = f(g, B, d)[k].s()
+            c2 = pull_positive(f(g, cm.ew(B, lam, cm.pmul), d)[k].s(), la)
+            l1, l2 = list(_code_leaves(c1)), list(_code_leaves(c2))
+            inst = "initialize: error code is invariant under B -> lam B (lam > 0)"
+            bad = None
+            unknown = None
+            if len(l1) != len(l2) or [v.const_value() for _, v in l1] != [v.const_value() for _, v in l2]:
+                bad = "the error-code tree changes shape under scaling"
+            else:
+                seen = set()
+                for (p1, _), (p2, _) in zip(l1, l2):
+                    for (ca_, _t), (cb_, _t2) in zip(p1, p2):
+                        if ca_ in seen:
+                            continue
+                        seen.add(ca_)
+                        a1, a2 = ca_.single_atom(), cb_.single_atom()
+                        if a1 is None or a2 is None or a1.kind != a2.kind or a1.kind not in ("lt", "le"):
+                            unknown = "condition %s is not an order comparison" % short(ca_, 60)
+                            continue
+                        d1, d2 = a1.key[1] - a1.key[0], a2.key[1] - a2.key[0]
+                        verdicts = [decide(d2, d1 * Poly({((la, n),): 1}) if n else d1) for n in (0, 1, 2)]
+                        if EQUAL in verdicts:
+                            continue
+                        if all(v == DIFFERENT for v in verdicts):
+                            bad = "the test %s changes with the field strength: %s  becomes  %s" % (short(ca_, 80), short(d1, 80), short(d2, 80))
+                        else:
+                            # h(u) compared with a constant, h injective: invariant iff u is; peel h and look at u
+                            v = _peel_scaling(d1, d2, la)
+                            if v is None:
+                                unknown = "cannot decide homogeneity of %s" % short(ca_, 80)
+                            elif v != 0:
+                                bad = "the test %s compares a quantity that scales like |B|^%d with a constant" % (short(ca_, 80), v)
+            if bad:
+                rep.fail(R, inst, bad + " - initialisation is rejected or accepted depending on |B| (the simulated field has strength mag_str, 0.1 by default)", where=w.where(MRP, "initialize"))
+            elif unknown:
+                rep.incomplete(R, inst, unknown, where=w.where(MRP, "initialize"))
+            else:
+                rep.ok(R, inst, fact={"conditions": len(seen)})
+    rep.floor(R, 2)
+
+
 def check_schedule(w, rep):
     """Every correction must be able to run for any configured rates (C12 quantifies over rate settings): the C20
     rate-limit rule is evaluated on a scratch report and only the verdicts that bear on convergence are kept - a gate
@@ -221,9 +327,11 @@ def run(w, rep, tier):
     rep.rule("C12.writeback", "on the accepted branch of each correction no state component is identical to its prior for all inputs (a pinned component can never converge)")
     rep.rule("C12.sensors", "simulated sensors: accelerometer = R(r)^T(0,0,-g) with |.| = g, magnetometer magnitude mag_str and heading = declination (the angle the estimator subtracts), gyro = rate + bias; truth MRP shadow-switched; estimator and simulator accelerometer models agree")
     rep.rule("C12.schedule", "accelerometer and magnetometer corrections are reachable for every rate setting: the rate gate compares the time since the last APPLIED correction with the minimum period in the right direction (rule shared with C20)")
+    rep.rule("C12.gates", "rejection tests that would starve the filter: the magnetometer gate does not depend on the heading uncertainty W[2,.]; initialize's error code is invariant under positive scaling of the measured field")
     rep.rule("C12.wiring", "every eqs[...](...) call in estimator.py / simulator.py names a shipped function with matching argument and result counts")
     check_writeback(w, rep)
     check_sensors(w, rep)
     check_wiring(w, rep)
     check_schedule(w, rep)
+    check_gates(w, rep)
     rep.undecided_clause("convergence of the estimate over a run (a property of trajectories of three interleaved processes): NOT decided; only necessary conditions are")
